@@ -4,7 +4,10 @@ import (
 	"context"
 	"fmt"
 	"github.com/oasisprotocol/oasis-core/go/common"
+	"github.com/oasisprotocol/oasis-core/go/common/persistent"
 	"github.com/oasisprotocol/oasis-core/go/roothash/api/commitment"
+	"github.com/oasisprotocol/oasis-core/go/upgrade"
+	upgradeAPI "github.com/oasisprotocol/oasis-core/go/upgrade/api"
 	"os"
 	"runtime/debug"
 	"time"
@@ -40,7 +43,9 @@ type ReplicaConfig struct {
 	Keys *NodeKeys
 	// Sanity registers the in-tree supplementary sanity checker (second opinion, every block).
 	Sanity bool
-	Dir    string // set by NewReplica for disk-backed replicas
+	// Upgrader gives the replica a real (node-local, persistent) upgrade manager, as every node has.
+	Upgrader bool
+	Dir      string // set by NewReplica for disk-backed replicas
 }
 
 // Replica is one node's ABCI application (real multiplexer + all apps).
@@ -50,6 +55,7 @@ type Replica struct {
 	Srv    *abci.ApplicationServer
 	Mux    types.Application
 	cancel context.CancelFunc
+	pstore *persistent.CommonStore
 }
 
 // NewReplica creates and starts a replica for the world's genesis; InitChain is not yet called.
@@ -91,8 +97,25 @@ func NewReplica(w *World, cfg ReplicaConfig) (*Replica, error) {
 		ChainContext:        w.Doc.ChainContext(),
 		MemoryOnlyStorage:   cfg.MemoryOnly,
 	}
-	srv, err := abci.NewApplicationServer(ctx, nil, appCfg)
+	var upgrader upgradeAPI.Backend
+	var pstore *persistent.CommonStore
+	if cfg.Upgrader {
+		var err error
+		if pstore, err = persistent.NewCommonStore(cfg.Dir); err != nil {
+			cancel()
+			return nil, fmt.Errorf("persistent store: %w", err)
+		}
+		if upgrader, err = upgrade.New(pstore, cfg.Dir, false); err != nil {
+			pstore.Close()
+			cancel()
+			return nil, fmt.Errorf("upgrade manager: %w", err)
+		}
+	}
+	srv, err := abci.NewApplicationServer(ctx, upgrader, appCfg)
 	if err != nil {
+		if pstore != nil {
+			pstore.Close()
+		}
 		cancel()
 		return nil, err
 	}
@@ -133,7 +156,7 @@ func NewReplica(w *World, cfg ReplicaConfig) (*Replica, error) {
 		cancel()
 		return nil, err
 	}
-	return &Replica{Cfg: cfg, World: w, Srv: srv, Mux: srv.Mux(), cancel: cancel}, nil
+	return &Replica{Cfg: cfg, World: w, Srv: srv, Mux: srv.Mux(), cancel: cancel, pstore: pstore}, nil
 }
 
 // Stop stops the replica; when remove is true its data directory is deleted.
@@ -144,6 +167,10 @@ func (r *Replica) Stop(remove bool) {
 		r.Srv = nil
 	}
 	r.cancel()
+	if r.pstore != nil {
+		r.pstore.Close()
+		r.pstore = nil
+	}
 	if remove {
 		_ = os.RemoveAll(r.Cfg.Dir)
 	}
